@@ -2,6 +2,14 @@ package c20
 
 import "verifharness/vt"
 
+// Registered checks of property C20. Weights scale the per-tier base count (VERIF_CHECKS).
+//
+// Dormant known-finding hooks (vt.Known, property C20; all five findings behind them are fixed in /repo):
+//
+//	bqueue-len-leak                   queue: capacity left is neither used by the driver nor asserted
+//	statesync-reinit-shared-node      statesync: no restart / crash in the MPT and blocks stages (MPT mode)
+//	statesync-crash-before-jump       statesync: crash point right after the last AddBlock's flush is skipped
+//	statesync-restart-lt2000-headers  statesync: no restart after the jump unless a TrustedHeader is configured
 func init() {
 	vt.PropertyID = "C20"
 	vt.Register("queue", 10.0, genQCase, checkQCase)
